@@ -236,4 +236,81 @@ theorem doublings_getElem? (n : Nat) (p : Pt) (hp : onCurve p = true)
       rw [ih _ (edAddOrId_on_curve p p hp hp) i h, toFP_edAddOrId p p hp hp, ← smulF_two,
         ← smulF_mul _ _ hP, pow_succ]
 
+/-! ### Row level: a pure fixed-base gate (`Constraint.groupAddFixedBase`) -/
+
+/-- A gate with `q_fixed_group_add = 1` and no other selector family active (`qarith = 0`, no
+    public input): the row check is exactly the four fixed-base components, with the gate's
+    `ql, qr, qc` as `x_β, y_β, x_β·y_β`. -/
+theorem rowHolds_fixed (g : Gate) (hf : g.qfixed = 1) (ha : g.qarith = 0) (hr : g.qrange = 0)
+    (hl : g.qlogic = 0) (hv : g.qvar = 0) (a b c d an bn dn : Nat) :
+    rowHolds g a b c d an bn dn 0 = true ↔
+      FixedRowF (toF g.ql) (toF g.qr) (toF g.qc) (toF a) (toF b) (toF c) (toF an) (toF bn)
+        (toF dn - 2 * toF d) := by
+  unfold rowHolds
+  have h0 : arithVal g a b c d 0 = 0 := by
+    rw [arithVal_eq_zero]; unfold arithF; simp [ha]
+  simp [hv, hr, hl, hf, h0, fixedComps_zero_iff]
+
+/-- the gate produced by `Constraint.groupAddFixedBase` satisfies the selector hypotheses and
+    keeps `ql, qr, qc` -/
+theorem groupAddFixedBase_selectors (s : Constraint) :
+    let g := (Constraint.groupAddFixedBase s).toGate
+    g.qfixed = 1 ∧ g.qarith = 0 ∧ g.qrange = 0 ∧ g.qlogic = 0 ∧ g.qvar = 0 ∧
+      g.ql = s.ql ∧ g.qr = s.qr ∧ g.qc = s.qc := by
+  simp [Constraint.groupAddFixedBase, Constraint.fromExternal, Constraint.toGate]
+
+/-! ### The host-side digit selection of `Composer.fixedAccs` -/
+
+/-- the `(scalar addend, point addend)` chosen by `fixedAccs` for a digit `e` and table entry `m`
+    (verbatim the `if` of the model) -/
+def digitSel (e : ℤ) (m : Pt) : Nat × Pt :=
+  if e == 0 then (0, Pt.id) else if e == 1 then (1 % R, m) else (R - 1, edNeg m)
+
+theorem digitSel_spec {e : ℤ} (he : e = 0 ∨ e = 1 ∨ e = -1) (m : Pt) :
+    toF (digitSel e m).1 = (e : F) ∧
+    toFP (digitSel e m).2 = selF (e : F) (toFP m) ∧
+    toF (fmul (digitSel e m).2.1 (digitSel e m).2.2) = (e : F) * toF m.1 * toF m.2 := by
+  rcases he with h | h | h <;> subst h
+  · exact ⟨by simp [digitSel], by simp [digitSel, toFP_id], by simp [digitSel, Pt.id]⟩
+  · simp [digitSel, one_mod_R]
+  · have : ((-1 : ℤ) == 0) = false := by decide
+    have h2 : ((-1 : ℤ) == 1) = false := by decide
+    simp [digitSel, this, h2, toF_R_sub_one, toFP_edNeg]
+    simp [edNeg]
+
+theorem digitSel_on_curve {e : ℤ} (m : Pt) (hm : onCurve m = true) :
+    onCurve (digitSel e m).2 = true := by
+  unfold digitSel
+  split
+  · exact id_on_curve_model
+  · split
+    · exact hm
+    · exact edNeg_on_curve m hm
+
+/-- completeness direction: the host's assignment for one round satisfies the fixed-base row -/
+theorem fixedComps_honest {e : ℤ} (he : e = 0 ∨ e = 1 ∨ e = -1) (m : Pt)
+    (hm : onCurve m = true) (a b d : Nat) (hacc : onCurve (a, b) = true) :
+    allZero (fixedComps m.1 m.2 (fmul m.1 m.2)
+      a (edAddOrId (a, b) (digitSel e m).2).1 b (edAddOrId (a, b) (digitSel e m).2).2
+      (fmul (digitSel e m).2.1 (digitSel e m).2.2) d (fadd (fmul 2 d) (digitSel e m).1)) = true := by
+  obtain ⟨h1, h2, h3⟩ := digitSel_spec he m
+  have hsel := digitSel_on_curve (e := e) m hm
+  have hbit : toF (fadd (fmul 2 d) (digitSel e m).1) - 2 * toF d = (e : F) := by
+    rw [toF_fadd, toF_fmul, toF_two, h1]; ring
+  rw [fixedComps_zero_iff_on_curve m.1 m.2 _ _ _ _ _ _ _ hm hacc, hbit, h3]
+  refine ⟨?_, rfl, ?_⟩
+  · rcases he with h | h | h <;> subst h <;> simp
+  · have := toFP_edAddOrId (a, b) (digitSel e m).2 hacc hsel
+    rw [h2] at this
+    exact this
+
+open Composer in
+/-- `fixedAccs` unfolds through `digitSel` (ties `digitSel` to the model's own code) -/
+theorem fixedAccs_cons (e : ℤ) (m : Pt) (rest : List (Int × Pt)) (sa : Nat) (pa : Pt) :
+    fixedAccs ((e, m) :: rest) sa pa =
+      ((sa, pa, fmul (digitSel e m).2.1 (digitSel e m).2.2) ::
+          (fixedAccs rest (fadd (fmul 2 sa) (digitSel e m).1) (edAddOrId pa (digitSel e m).2)).1,
+        (fixedAccs rest (fadd (fmul 2 sa) (digitSel e m).1) (edAddOrId pa (digitSel e m).2)).2) := by
+  rfl
+
 end Plonk
